@@ -348,7 +348,10 @@ static void emitFunction(Function& F) {
       auto O = [&](unsigned i) { return val(I.getOperand(i), &fc); };
       if (isa<PHINode>(I)) continue;
       if (auto* AI = dyn_cast<AllocaInst>(&I)) {
-        if (!AI->isStaticAlloca()) die("dynamic alloca in " + F.getName().str());
+        if (!AI->isStaticAlloca()) {   // variable-length array: heap block of the runtime size (never freed: harmless for a bounded run)
+          uint64_t esz = DL->getTypeAllocSize(AI->getAllocatedType()); if (esz == 0) esz = 1;
+          line = "char* " + fc.names[&I] + " = (char*)malloc(" + std::to_string(esz) + "ull * (uint64_t)(" + val(AI->getArraySize(), &fc) + ") + 1); __CPROVER_assume(" + fc.names[&I] + " != 0);";
+          body += "  " + line + "\n"; continue; }
         uint64_t sz = DL->getTypeAllocSize(AI->getAllocatedType()) * cast<ConstantInt>(AI->getArraySize())->getZExtValue();
         if (sz == 0) sz = 1;
         line = "char " + fc.names[&I] + "_buf[" + std::to_string(sz) + "] __attribute__((aligned(16))); char* " + fc.names[&I] + " = " + fc.names[&I] + "_buf;";
@@ -496,7 +499,11 @@ int main(int argc, char** argv) {
   for (GlobalVariable& G : M->globals()) {
     uint64_t sz = G.getValueType()->isSized() ? DL->getTypeAllocSize(G.getValueType()) : 64;
     if (sz == 0) sz = 1;
-    if (G.isDeclaration()) { gdecl += "char " + gname[&G] + "[" + std::to_string(sz < 64 ? 64 : sz) + "] __attribute__((aligned(16))); /* external " + G.getName().str() + " */\n"; continue; }
+    if (G.isDeclaration()) { gdecl += "char " + gname[&G] + "[" + std::to_string(sz < 64 ? 64 : sz) + "] __attribute__((aligned(16))); /* external " + G.getName().str() + " */\n";
+      // external VTTs / vtables (libstdc++ stream classes whose destructors are inlined): every slot points into a zeroed dummy table, so that the
+      // virtual-base offsets read through them are 0 and the (opaque) stream object is only touched inside its own storage
+      if (G.getName().startswith("_ZTT") || G.getName().startswith("_ZTV")) for (int k = 0; k < 8; k++) ginit += "  *(char**)(" + gname[&G] + " + " + std::to_string(8 * k) + ") = __ir2c_dummy_vt + 64;\n";
+      continue; }
     gdecl += "char " + gname[&G] + "[" + std::to_string(sz) + "] __attribute__((aligned(16)));\n";
   }
   for (GlobalVariable& G : M->globals()) if (!G.isDeclaration()) initStores(gname[&G], 0, G.getInitializer(), ginit);
